@@ -282,6 +282,21 @@ theorem C04_component_returns (O : Component.Oracle) (script : List Item) :
 example : (Component.run ⟨fun _ => false, fun _ => false, fun _ => false, true, true⟩ 10
     (Component.init [.pi, .hdr true, .ack])).pc = .done := by decide
 
+/-- **the receiving side of the component handshake** (`component.ReceiveSession`, not implemented
+by the library): whatever the peer sends and whatever fails or is cancelled, no session is ever
+reported, nothing is read or written, and after one step the run has failed — the negotiator
+refuses with an error (before the `fix:` commit it panicked on every call: finding
+`panic|component-receive`) -/
+theorem C04_component_receive_refused (O : Component.Oracle) (script : List Item) (n : Nat) :
+    (Component.run O n (initRecv script)).pc ≠ .done ∧ (Component.run O n (initRecv script)).tr = [] ∧
+    (1 ≤ n → (Component.run O n (initRecv script)).pc = .fail .proto) := by
+  cases n with
+  | zero => exact ⟨by simp [Component.run, initRecv], rfl, by omega⟩
+  | succ n =>
+    have h : Component.step O (initRecv script) = { initRecv script with pc := .fail .proto } := rfl
+    rw [Component.run, h, Component.run_of_final O n _ rfl]
+    exact ⟨by simp, rfl, fun _ => rfl⟩
+
 end component
 
 /-! ### non-vacuity -/
